@@ -6,7 +6,7 @@ use std::time::Duration;
 
 use super::super::{co_io_result, from_nix_error, IoData};
 #[cfg(feature = "io_cancel")]
-use crate::coroutine_impl::co_cancel_data;
+use crate::coroutine_impl::{co_cancel_data, co_get_handle};
 use crate::coroutine_impl::{is_coroutine, CoroutineImpl, EventSource};
 use crate::io::AsIoData;
 use crate::yield_now::yield_with_io;
@@ -69,9 +69,14 @@ impl<'a> SocketRead<'a> {
 
 impl EventSource for SocketRead<'_> {
     fn subscribe(&mut self, co: CoroutineImpl) {
+        // the coroutine may even come to its end, its handle keeps the cancel data valid
+        #[cfg(feature = "io_cancel")]
+        let _handle = co_get_handle(&co);
         #[cfg(feature = "io_cancel")]
         let cancel = co_cancel_data(&co);
-        let io_data = self.io_data;
+        // once the coroutine is stored another thread may resume it and it may drop the
+        // socket we were called through: use the shared event data by value from here
+        let io_data = (*self.io_data).clone();
 
         #[cfg(feature = "io_timeout")]
         if let Some(dur) = self.timeout {
@@ -83,6 +88,10 @@ impl EventSource for SocketRead<'_> {
         // after register the coroutine, it's possible that other thread run it immediately
         // and cause the process after it invalid, this is kind of user and kernel competition
         // so we need to delay the drop of the EventSource, that's why _g is here
+        // register the cancel io data before the coroutine is published, a late
+        // registration would overwrite the one of its next blocking call
+        #[cfg(feature = "io_cancel")]
+        cancel.set_io(io_data.clone());
         #[cfg(may_verif)]
         may_queue::verif::point(may_queue::verif::site::IO_READ_SUB_ARMED, 0);
         io_data.co.store(co);
@@ -98,11 +107,12 @@ impl EventSource for SocketRead<'_> {
 
         #[cfg(feature = "io_cancel")]
         {
-            // register the cancel io data
-            cancel.set_io((*io_data).clone());
-            // re-check the cancel status
+            // re-check the cancel status: a cancel that came before the coroutine
+            // was stored found nothing to wake up
             if cancel.is_canceled() {
-                unsafe { cancel.cancel() };
+                if let Some(co) = io_data.co.take() {
+                    crate::scheduler::get_scheduler().schedule(co);
+                }
             }
         }
     }
